@@ -25,6 +25,9 @@ what a run of the real code shows (harness events + the comm hooks):
     ret       that comm::async returns
     done      the innermost insert returns
     fb / fe   the pre-barrier callback (flush_all) begins / returns
+    bar       `barrier()` returns on this rank: enabled only when no container call is active
+              and no callback is registered (comm.ipp: the barrier loop runs the callbacks
+              until none is left and asserts `m_pre_barrier_callbacks.empty()`)
 
 Executable, core Lean only.
 -/
@@ -131,6 +134,7 @@ inductive Label (V : Type) where
   | done
   | fb
   | fe
+  | bar
   deriving Repr
 
 /-- after the eviction loop: occupy the free slot or combine with the cached value of
@@ -211,6 +215,7 @@ def step {V} (cfg : Cfg V) (s : St V) : Label V → Option (St V)
     match s.stack with
     | .fall _ .fin :: rest => some { s with stack := rest }
     | _ => none
+  | .bar => if s.stack.isEmpty ∧ s.reg = false then some s else none
 
 /-- run a label sequence; `none` = some label was not enabled -/
 def run {V} (cfg : Cfg V) : St V → List (Label V) → Option (St V)
